@@ -690,7 +690,13 @@ func (ls *LState) where(level int, skipg bool) string {
 	}
 	line := ""
 	if proto != nil {
-		line = fmt.Sprintf("%v:", proto.DbgSourcePositions[cf.Pc-1])
+		pc := cf.Pc - 1
+		if pc < 0 {
+			// the frame has been set up but no instruction has been fetched yet
+			// (an error while reserving its registers)
+			pc = 0
+		}
+		line = fmt.Sprintf("%v:", proto.DbgSourcePositions[pc])
 	}
 	return fmt.Sprintf("%v:%v", sourcename, line)
 }
